@@ -2,8 +2,10 @@ import LachesisVerif.Model.Orderer
 import LachesisVerif.Props.C11
 import LachesisVerif.Proofs.ElectionInv
 import LachesisVerif.Proofs.ElectionL4
+import LachesisVerif.Proofs.ElectionL3
 import LachesisVerif.Proofs.ElectionSingle
 import LachesisVerif.Proofs.ElectionComplete
+import LachesisVerif.Proofs.ElectionExample
 /-!
 # C10 — Consensus output matches an independent reference implementation
 
@@ -26,7 +28,8 @@ Status: PARTIAL proof. Proved below:
   subject, the returned frame is `frameToDecide`;
 * about the graph-level rules (`Spec/ElectionRules.lean`: `FC` = C05's `FCSpec`, `IsRoot`, the frame
   rule `Allowed`, `voteYes` by recursion on the round, `DecidesYes/No`, `IsAtropos`, `Forker`, `BFT`):
-  L1 (`L1_quorums_share_honest` on masks, `L1_graph` on the graph definitions), L2
+  L1 (`L1_quorums_share_honest` on masks, `L1_graph` on the graph definitions), L3
+  (`L3_votes_stable`: votes and decisions of old events are unchanged when the history grows), L2
   (`L2_one_root_per_slot`: under `Valid`, `FramesAccepted`, `BFT` two different roots of one slot are
   never both forkless-caused), L4 (`L4_decision_is_final`: a decision fixes all later votes and
   excludes the opposite decision), `atropos_unique`;
@@ -39,7 +42,7 @@ Status: PARTIAL proof. Proved below:
   rules derive from a fed root is stored, and (`C10_single_election_same_result`) any other closed
   feed containing the same roots returns the same Atropos.
 
-NOT proved: L3 (votes are stable when the history grows), L5 (the invariant that `handleElection` +
+NOT proved: L5 (the invariant that `handleElection` +
 `bootstrapElection` maintain across decisions, lifting the single election to whole `Orderer` runs
 and epochs, i.e. "model blocks = reference blocks"), L6 (not every subject is decided no), and the equivalence of the executable reference
 `Spec/Lachesis.lean` with the Prop-level rules of `Spec/ElectionRules.lean`. That the accepted
@@ -263,6 +266,18 @@ theorem L1_graph (N : Net) : N.L1 := N.L1_holds
     one slot (same frame, same creator) are never both forkless-caused — by anything. -/
 theorem L2_one_root_per_slot (N : Net) : N.L2 := N.L2_holds
 
+/-- L3: the vote of a root is a function of its ancestry — when a valid history grows (`Extends`:
+    events appended, validators, weights and the accepted frames of the old events unchanged), the
+    forkless-cause relation from an old event, its root status, its votes and its decisions are
+    unchanged. -/
+theorem L3_votes_stable (N N' : Net) (E : Extends N N') (hv : Valid N'.nVals N'.h) (f v k r : Nat)
+    (hr : r < N.h.length) :
+    (∀ b, N'.FC r b ↔ N.FC r b) ∧ (∀ g, N'.IsRoot r g ↔ N.IsRoot r g) ∧
+    (N'.voteYes f k r v ↔ N.voteYes f k r v) ∧
+    (N'.DecidesYes f k r v ↔ N.DecidesYes f k r v) ∧ (N'.DecidesNo f k r v ↔ N.DecidesNo f k r v) :=
+  ⟨fun _ => E.FC_iff hv hr, fun _ => E.isRoot_iff hv hr, E.voteYes_iff hv f v k r hr,
+    (E.decides_iff hv f k r v hr).1, (E.decides_iff hv f k r v hr).2⟩
+
 /-- L4: if some root decides subject `v` at round `k`, every root of every round ≥ `k` votes the same
     way and nobody decides the opposite. -/
 theorem L4_decision_is_final (N : Net) : N.L4 := N.L4_holds
@@ -323,7 +338,7 @@ open Classical
     has `f' = f` and `N.IsAtropos f a`.
     The converse is `C10_single_election_complete` / `C10_single_election_same_result`.
     NOT proved here (hence `_partial`): the lifting from one election to whole `Orderer` runs with
-    restarts of the election after each decision (L5), L3 and L6. -/
+    restarts of the election after each decision (L5), and L6. -/
 theorem C10_single_election_partial (N : Net) (vals : Vals) (f : Nat) (observe : Nat → Nat → Bool)
     (frameRoots : Nat → List Root) (S : Setup N vals f observe frameRoots) (rs : List Root)
     (hfc : FeedClosed observe frameRoots f [] rs) :
@@ -380,6 +395,22 @@ theorem C10_single_election_same_result (N : Net) (f : Nat) (vals₁ vals₂ : V
     (h₁ : runRoots observe₁ frameRoots₁ (reset vals₁ f) rs₁ = .ok (el₁, some b)) :
     ∃ el₂, runRoots observe₂ frameRoots₂ (reset vals₂ f) rs₂ = .ok (el₂, some b) :=
   same_result S₁ S₂ rs₁ rs₂ hfc₁ hfc₂ hsub el₁ b h₁
+
+/-- non-vacuity (`Proofs/ElectionExample.lean`): one validator, a chain of three events accepted in
+    frames 1, 2, 3. All hypotheses of L2 / L4 / `atropos_unique` hold; `Setup` holds with computable
+    oracles; the feed "root of frame 2, root of frame 3" is closed; the model's election for frame 1
+    returns event 0; hence, by `C10_single_election_partial`, event 0 is the Atropos of frame 1. -/
+example : Valid ElectionExample.net.nVals ElectionExample.net.h ∧ ElectionExample.net.FramesAccepted ∧
+    ElectionExample.net.BFT := ⟨ElectionExample.valid, ElectionExample.framesAccepted, ElectionExample.bft⟩
+example : Setup ElectionExample.net ElectionExample.vals 1 ElectionExample.observe ElectionExample.frameRoots ∧
+    FeedClosed ElectionExample.observe ElectionExample.frameRoots 1 [] ElectionExample.feed1 ∧
+    ∃ el', runRoots ElectionExample.observe ElectionExample.frameRoots (reset ElectionExample.vals 1)
+      ElectionExample.feed1 = .ok (el', some (1, 0)) :=
+  ⟨ElectionExample.setup 1 (by decide), ElectionExample.feed1_closed, ElectionExample.run1⟩
+example : ElectionExample.net.IsAtropos 1 0 := ElectionExample.atropos1
+/-- non-vacuity of L3's hypotheses: the example history extends its two-event prefix -/
+example : Extends { ElectionExample.net with h := ElectionExample.net.h.take 2 } ElectionExample.net :=
+  ⟨⟨[{ creator := 0, seq := 3, parents := [1] }], rfl⟩, rfl, rfl, fun _ _ => rfl⟩
 
 /-- non-vacuity: the hypotheses of `C10_single_election_BFT` hold for `exNet` and the empty feed -/
 example : ∃ el', runRoots (fun a b => decide (exNet.FC a b)) (rootsOf exNet) (reset (canonVals exNet) 1) [] = .ok (el', none) :=
